@@ -13,21 +13,33 @@ func ZzC17MikeyContext() {
 	if withMKI {
 		ctx.mki = zzBytes("mki", 4, 4)
 	}
-	n := zzConcretize(zzIntIn("nssrc", 1, 2))
+	n := zzConcretize(zzIntIn("nssrc", 1, zzParam("NSSRC", 3)))
+	// the first k SSRCs have roll-over state (they have sent or were given a
+	// starting counter), the others have none yet: their counter is 0
+	k := zzConcretize(zzIntIn("nwithroc", 0, n))
+	want := make([]uint32, n)
 	for i := 0; i < n; i++ {
 		ctx.ssrcs = append(ctx.ssrcs, zzU32("ssrc"))
-		ctx.startROCs = append(ctx.startROCs, zzU32("roc"))
-	}
-	if n == 2 {
-		zzAssume(ctx.ssrcs[0] != ctx.ssrcs[1])
+		if i < k {
+			ctx.startROCs = append(ctx.startROCs, zzU32("roc"))
+			want[i] = ctx.startROCs[i]
+		}
+		for j := 0; j < i; j++ {
+			zzAssume(ctx.ssrcs[j] != ctx.ssrcs[i])
+		}
 	}
 	zzAssert(ctx.initialize() == nil, "offering context initialises")
 	msg, err := contextToMikey(ctx)
 	zzAssert(err == nil, "context is exported to MIKEY")
-	enc, err := msg.Marshal()
-	zzAssert(err == nil, "MIKEY message marshals")
-	var m2 mikey.Message
-	zzAssert(m2.Unmarshal(enc) == nil, "MIKEY message parses")
+	// the byte-level round trip of the message is C09's (ZzC09MikeyRT); here the
+	// message value goes straight to the receiving side unless BYTES=1
+	m2 := *msg
+	if zzParam("BYTES", 0) == 1 {
+		enc, merr := msg.Marshal()
+		zzAssert(merr == nil, "MIKEY message marshals")
+		m2 = mikey.Message{}
+		zzAssert(m2.Unmarshal(enc) == nil, "MIKEY message parses")
+	}
 	ctx2, err := mikeyToContext(&m2)
 	zzAssert(err == nil, "receiving side builds its context")
 	if err == nil {
@@ -40,7 +52,7 @@ func ZzC17MikeyContext() {
 		if len(ctx2.ssrcs) == n {
 			for i := 0; i < n; i++ {
 				zzAssert(ctx2.ssrcs[i] == ctx.ssrcs[i], "SSRC preserved, same position")
-				zzAssert(ctx2.startROCs[i] == ctx.startROCs[i], "roll-over counter preserved")
+				zzAssert(ctx2.startROCs[i] == want[i], "roll-over counter preserved (0 for an SSRC without state)")
 			}
 		}
 	}
